@@ -164,12 +164,12 @@ def gen_session(world, rnd, nrounds, sid):
 
 
 def reconf_variant(world, rnd):
+    """The configuration in force, or one that differs from it in a way that changes nothing for the pods of the sessions
+    (a reserved namespace pattern no pod uses): the full reconfiguration path without a legitimate change of allocations."""
     cfg = copy.deepcopy(world["config"])
     if rnd.random() < 0.35:
-        if world["policy"] == "ta":
-            cfg["preferSharedCPUs"] = not cfg.get("preferSharedCPUs", False)
-        else:
-            cfg["reservedPoolNamespaces"] = [] if cfg.get("reservedPoolNamespaces") else ["rsv-x"]
+        ns = [x for x in cfg.get("reservedPoolNamespaces", []) if x != "rsv-x"]
+        cfg["reservedPoolNamespaces"] = ns + ([] if "rsv-x" in cfg.get("reservedPoolNamespaces", []) else ["rsv-x"])
     return cfg
 
 
@@ -287,7 +287,7 @@ def parse_race_log(text):
     return recs
 
 
-_GOR = re.compile(r"^goroutine \d+ [^\n]*:\n((?:.+\n)+)", re.M)
+_GOR = re.compile(r"^goroutine \d+ (?:gp=\S+ m=\S+ (?:mp=\S+ )?)?\[([^\]\n]*)\]:\n((?:.+\n)+)", re.M)
 _GFRAME = re.compile(r"^(\S+)\(.*\)\n\t(\S+):(\d+)", re.M)
 
 
@@ -300,12 +300,555 @@ def parse_crash(text):
     tail = text[m.start():]
     sides = []
     for g in _GOR.finditer(tail):
-        frames = [(a, b, int(c)) for a, b, c in _GFRAME.findall(g.group(1))]
+        frames = [(a, b, int(c)) for a, b, c in _GFRAME.findall(g.group(2))]
         if not any("pkg/resmgr." in fn or "pkg/resmgr/cache." in fn for fn, _, _ in frames):
             continue
+        if not re.match(r"running|runnable|syscall|IO wait", g.group(1)):
+            continue                        # parked (waiting for a lock, a channel ...): not accessing anything
         s = classify_side(frames)
-        if s["kind"].startswith("background:"):
+        if s["kind"].startswith("background:") or s["kind"] == "driver":
             continue
         s["frames"] = ["%s %s:%d" % (fn.split("/")[-1], os.path.basename(fl), ln) for fn, fl, ln in frames if "/src/runtime/" not in fl][:4]
+        s["op"] = "in-handler-when-the-runtime-aborted"
         sides.append(s)
-    return {"ev": "crash", "key": m.group(1), "what": m.group(1), "sides": sides}
+    key = m.group(1) + ": " + " || ".join(sorted({"%s@%s" % (s["kind"], s["frames"][0] if s["frames"] else "?") for s in sides}))
+    return {"ev": "crash", "key": key, "what": m.group(1), "sides": sides}
+
+
+# ----------------------------------------------------------------------------------------------- design check
+
+def _cfg_variant(ctx, base, name, subst):
+    txt = open(os.path.join(vlib.SPEC, base)).read()
+    for a, b in subst:
+        if a not in txt:
+            raise vlib.Inconclusive("configuration %s has no line %r" % (base, a))
+        txt = txt.replace(a, b)
+    p = ctx.path("cfg", name)
+    open(p, "w").write(txt)
+    return p
+
+
+def _cfg_set(base, const):
+    """The value of a set-valued constant of a cfg file, as a list of strings."""
+    m = re.search(r"^\s*%s\s*=\s*\{([^}]*)\}" % const, open(os.path.join(vlib.SPEC, base)).read(), re.M)
+    if not m:
+        raise vlib.Inconclusive("constant %s not found in %s" % (const, base))
+    return [x.strip().strip('"') for x in m.group(1).split(",") if x.strip()]
+
+
+def _setlit(xs):
+    return "{" + ", ".join('"%s"' % x for x in xs) + "}"
+
+
+def design_check(ctx):
+    """Returns (main result, summary dict).  Every run is small (<= 25 k states)."""
+    unlocked = _cfg_set("MC_Serialize.cfg", "UnlockedKinds")
+    jobs = {"lock": ("MC_Serialize.cfg", None), "live": ("MC_SerializeLive.cfg", None), "rv": ("MC_SerializeRv.cfg", None)}
+    # every named deviation is real: without the excuse TLC finds the Inv_Mutex counterexample
+    for k in unlocked:
+        rest = [x for x in unlocked if x != k]
+        jobs["dev:" + k] = (_cfg_variant(ctx, "MC_Serialize.cfg", "dev-%s.cfg" % k,
+                                         [("UnlockedKinds = " + _setlit(unlocked), "UnlockedKinds = " + _setlit(rest))]), "Inv_MutexLocking")
+    # the handlers as they were before /repo commit 06edfe4 (F-C15-1), all together and one kind at a time
+    old_nolock = ["StopPodSandbox", "Synchronize"]
+    old_pre = ["RemovePodSandbox"]
+    jobs["dev:pre-06edfe4"] = (_cfg_variant(ctx, "MC_Serialize.cfg", "dev-old.cfg", [("NoLockKinds = {}", "NoLockKinds <- OldNoLockKinds"),
+                                                                                     ("PreAccessKinds = {}", "PreAccessKinds <- OldPreAccessKinds")]), "Inv_MutexLocking")
+    for k in old_nolock:
+        jobs["dev:NoLock:" + k] = (_cfg_variant(ctx, "MC_Serialize.cfg", "dev-nolock-%s.cfg" % k, [("NoLockKinds = {}", "NoLockKinds = " + _setlit([k]))]), "Inv_MutexLocking")
+    for k in old_pre:
+        jobs["dev:PreAccess:" + k] = (_cfg_variant(ctx, "MC_Serialize.cfg", "dev-pre-%s.cfg" % k, [("PreAccessKinds = {}", "PreAccessKinds = " + _setlit([k]))]), "Inv_MutexLocking")
+    # the old ordering of the rendezvous must violate Act_ReadSeesFetch
+    jobs["dev:OldOrder"] = (_cfg_variant(ctx, "MC_SerializeRv.cfg", "dev-oldorder.cfg", [("OldOrder = FALSE", "OldOrder = TRUE")]), "Act_ReadSeesFetch")
+    # leads for the seeded mutations: a handler that only takes the read lock; a handler that locks twice
+    jobs["lead:RLock"] = (_cfg_variant(ctx, "MC_Serialize.cfg", "lead-rlock.cfg", [("RLockKinds = {}", 'RLockKinds = {"UpdateContainer"}')]), "Inv_MutexLocking")
+    jobs["lead:LockTwice"] = (_cfg_variant(ctx, "MC_Serialize.cfg", "lead-twice.cfg", [("TwiceKinds = {}", 'TwiceKinds = {"CreateContainer"}')]), "deadlock")
+
+    def one(item):
+        name, (cfg, expect) = item
+        r = vlib.tlc("MC_Serialize", cfg, ctx.path("mc", re.sub(r"\W", "_", name)), workers=2 if expect else 4, timeout=300, deadlock=True)
+        return name, expect, r
+    with cf.ThreadPoolExecutor(max_workers=len(jobs)) as ex:
+        res = list(ex.map(one, jobs.items()))
+    summary, main = {}, None
+    for name, expect, r in res:
+        got = r["violated"] or ("deadlock" if "Deadlock reached" in r["out"] else None)
+        summary[name] = {"expected": expect or "no error", "got": got or ("no error" if r["ok"] else r["error"]), "states": r["distinct"]}
+        if expect is None:
+            if not r["ok"]:
+                raise vlib.Inconclusive("design model check %s did not pass: violated=%s error=%s\n%s" % (name, r["violated"], r["error"], r["out"][-3000:]))
+            if name == "lock":
+                main = r
+        elif got != expect:
+            raise vlib.Inconclusive("design model: %s was expected to end with %s, TLC says %s (the model does not describe the deviation)\n%s"
+                                    % (name, expect, got, r["out"][-2000:]))
+    summary["named_deviations"] = {"UnlockedKinds": unlocked, "NoLockKinds": _cfg_set("MC_Serialize.cfg", "NoLockKinds"),
+                                   "PreAccessKinds": _cfg_set("MC_Serialize.cfg", "PreAccessKinds")}
+    return main, summary
+
+
+# ----------------------------------------------------------------------------------------------- running the real code
+
+def run_shard(binp, script, a, b, outdir, tag, race, extra=None, timeout=900):
+    """Sessions [a, b) in one process; a process killed by the Go runtime (concurrent map access) is evidence, the remaining
+    sessions go to a new process.  Returns (round files, l2 files, crash records, race logs, hang)."""
+    rounds, l2s, crashes, hang = [], [], [], False
+    shared = os.path.join(vlib.OUT, "fixtures-shared")
+    os.makedirs(shared, exist_ok=True)
+    attempt = 0
+    while a < b:
+        rp = os.path.join(outdir, "rounds-%s-%d.ndjson" % (tag, attempt))
+        lp = os.path.join(outdir, "l2-%s-%d.ndjson" % (tag, attempt))
+        ep = os.path.join(outdir, "stderr-%s-%d.log" % (tag, attempt))
+        env = dict(os.environ, GOTRACEBACK="all", GORACE="log_path=%s halt_on_error=0 exitcode=0" % os.path.join(outdir, "race-%s-%d" % (tag, attempt)))
+        cmd = [binp, "run", "--script", script, "--out", rp, "--scratch", os.path.join(outdir, "scratch-%s-%d" % (tag, attempt)),
+               "--shared", shared, "--from", str(a), "--to", str(b)] + ([] if race else ["--l2out", lp]) + (extra or [])
+        rc, out = vlib.sh("%s 2>%s" % (" ".join(cmd), ep), timeout=timeout, env=env)
+        rounds.append(rp)
+        if not race and os.path.exists(lp):
+            l2s.append(lp)
+        if "stopped after a hang" in out:
+            hang = True
+            break
+        if rc == 0:
+            try:
+                os.remove(ep)
+            except OSError:
+                pass
+            break
+        # the process died: why?  (the runtime's message is followed by a dump of every goroutine, interleaved with log output)
+        err = ""
+        try:
+            with open(ep, "rb") as f:
+                pos, off, keep = -1, 0, b""
+                while True:
+                    blk = f.read(1 << 20)
+                    if not blk:
+                        break
+                    i = (keep + blk).find(b"fatal error:")
+                    if i >= 0:
+                        pos = off - len(keep) + i
+                        break
+                    keep = blk[-16:]
+                    off += len(blk)
+                if pos < 0:
+                    f.seek(0, 2)
+                    pos = max(0, f.tell() - (2 << 20))
+                f.seek(pos)
+                err = f.read(12 << 20).decode("utf-8", "replace")
+        except OSError:
+            pass
+        crash = parse_crash(err)
+        last = a - 1
+        if os.path.exists(rp):
+            for l in open(rp):
+                try:
+                    last = max(last, json.loads(l).get("s", last))
+                except ValueError:
+                    pass                       # a torn last line
+        if crash is None or attempt >= 6:
+            raise vlib.Inconclusive("concdrv died (rc=%s) in sessions %d..%d without a recognisable runtime error:\n%s" % (rc, a, b, err[-3000:]))
+        crash["s"] = max(last, a)
+        crashes.append(crash)
+        a = max(last, a) + 1
+        attempt += 1
+    return rounds, l2s, crashes, hang
+
+
+def run_sessions(ctx, binp, sessions, outdir, race, shards, extra=None, timeout=900):
+    os.makedirs(outdir, exist_ok=True)
+    sp = os.path.join(outdir, "script.json")
+    json.dump({"sessions": sessions}, open(sp, "w"))
+    n = len(sessions)
+    shards = max(1, min(shards, n))
+    per = (n + shards - 1) // shards
+    parts = [(i * per, min(n, (i + 1) * per)) for i in range(shards) if i * per < n]
+    with cf.ThreadPoolExecutor(max_workers=len(parts)) as ex:
+        res = list(ex.map(lambda ab: run_shard(binp, sp, ab[0], ab[1], outdir, "%03d" % ab[0], race, extra, timeout), parts))
+    rounds, l2s, crashes, hang = [], [], [], False
+    for r, l, c, h in res:
+        rounds += r
+        l2s += l
+        crashes += c
+        hang = hang or h
+    races = []
+    for fn in sorted(os.listdir(outdir)):
+        if fn.startswith("race-"):
+            races += parse_race_log(open(os.path.join(outdir, fn), errors="replace").read())
+    # distinct across shards
+    seen, uniq = set(), []
+    for r in races:
+        if r["key"] not in seen:
+            seen.add(r["key"])
+            uniq.append(r)
+    return rounds, l2s, crashes, uniq, hang
+
+
+def run_rv(ctx, binp, outdir, race, nrounds):
+    os.makedirs(outdir, exist_ok=True)
+    tag = "race" if race else "plain"
+    rp = os.path.join(outdir, "rv-%s.ndjson" % tag)
+    env = dict(os.environ, GOTRACEBACK="all", GORACE="log_path=%s halt_on_error=0 exitcode=0" % os.path.join(outdir, "rvrace-%s" % tag))
+    rc, out = vlib.sh("%s rv --rounds %d --seed %d --out %s --scratch %s 2>%s" % (binp, nrounds, ctx.seed, rp, os.path.join(outdir, "rvs-" + tag),
+                                                                                  os.path.join(outdir, "rv-stderr-%s.log" % tag)), timeout=600, env=env)
+    if rc != 0:
+        raise vlib.Inconclusive("rendezvous driver failed rc=%s: %s" % (rc, out[-1500:]))
+    races = []
+    for fn in sorted(os.listdir(outdir)):
+        if fn.startswith("rvrace-" + tag):
+            races += parse_race_log(open(os.path.join(outdir, fn), errors="replace").read())
+    return rp, races
+
+
+# ----------------------------------------------------------------------------------------------- statistics (vacuity guard)
+
+def round_stats(recs):
+    st = {"rounds": 0, "requests": 0, "sessions": 0, "boot_errors": 0, "kinds_concurrent": {k: 0 for k in KINDS}, "gmp": {}, "goroutines": {},
+          "locked_requests": 0, "waited_for_lock": 0, "unlocked_requests": 0, "equiv_checked": 0, "equiv_full": 0, "equiv_determined": 0, "equiv_allocation_choice_differs": 0,
+          "equiv_same": 0, "equiv_diff": 0, "control_runs": 0, "bulk_rounds": 0, "hangs": 0, "panics": 0, "errors": 0, "lock_orders": set(),
+          "observed_nolock_kinds": set(), "observed_preaccess_kinds": set(), "accesses": 0, "accesses_outside_lock": 0}
+    for e in recs:
+        if e["ev"] == "session":
+            st["sessions"] += 1
+            st["boot_errors"] += 1 if "booterr" in e else 0
+            continue
+        if e["ev"] != "round":
+            continue
+        st["rounds"] += 1
+        st["gmp"][str(e["gmp"])] = st["gmp"].get(str(e["gmp"]), 0) + 1
+        st["goroutines"][str(e["ngo"])] = st["goroutines"].get(str(e["ngo"]), 0) + 1
+        st["bulk_rounds"] += 1 if e.get("bulk") else 0
+        st["hangs"] += 1 if e.get("hang") else 0
+        cs = {}       # lock seq -> (unlock seq, q)
+        for q in e["reqs"]:
+            ls = [x for x in q["ev"] if x["e"] == "lock"]
+            us = [x for x in q["ev"] if x["e"] == "unlock"]
+            for x, y in zip(ls, us):
+                cs[x["seq"]] = (y["seq"], q["q"])
+        gs = {q["g"] for q in e["reqs"]}
+        order = []
+        for q in e["reqs"]:
+            st["requests"] += 1
+            st["panics"] += 1 if q["panic"] else 0
+            st["errors"] += 1 if q["err"] else 0
+            if len(gs) > 1:
+                st["kinds_concurrent"][q["kind"]] = st["kinds_concurrent"].get(q["kind"], 0) + 1
+            acc = [x for x in q["ev"] if x["e"] == "acc"]
+            st["accesses"] += len(acc)
+            free = [x for x in acc if not x["h"]]
+            st["accesses_outside_lock"] += len(free)
+            locks = [x for x in q["ev"] if x["e"] == "lock"]
+            if locks:
+                st["locked_requests"] += 1
+                order.append((locks[0]["seq"], q["kind"]))
+                b = q["ev"][0]["b"]
+                if b in cs and cs[b][1] != q["q"]:
+                    st["waited_for_lock"] += 1        # the lock was held by another request when this one started
+                if free:
+                    st["observed_preaccess_kinds"].add(q["kind"])
+            else:
+                st["unlocked_requests"] += 1
+                if acc:
+                    st["observed_nolock_kinds"].add(q["kind"])
+        st["lock_orders"].add(" ".join(k for _, k in sorted(order)))
+        eq = e.get("equiv") or {}
+        if eq.get("checked"):
+            st["equiv_checked"] += 1
+            st["equiv_" + eq["level"]] += 1
+            if eq["same_full"]:
+                st["equiv_same"] += 1
+            elif eq["same_det"]:
+                st["equiv_allocation_choice_differs"] += 1
+            else:
+                st["equiv_diff"] += 1
+            st["control_runs"] += eq.get("nctl", 0)
+    st["distinct_lock_orders"] = len(st.pop("lock_orders"))
+    st["observed_nolock_kinds"] = sorted(st["observed_nolock_kinds"])
+    st["observed_preaccess_kinds"] = sorted(st["observed_preaccess_kinds"])
+    return st
+
+
+def split_lines(paths, nchunks, outdir, prefix):
+    lines = []
+    for p in paths:
+        if isinstance(p, str):
+            for l in open(p).read().splitlines():
+                try:
+                    json.loads(l)
+                    lines.append(l)
+                except ValueError:
+                    pass                       # the torn last line of a process that was killed
+        else:
+            lines += [json.dumps(r, separators=(",", ":"), sort_keys=True) for r in p]
+    per = max(1, (len(lines) + nchunks - 1) // nchunks)
+    files = []
+    for i in range(0, len(lines), per):
+        fp = os.path.join(outdir, "%s%03d.ndjson" % (prefix, i // per))
+        open(fp, "w").write("\n".join(lines[i:i + per]) + "\n")
+        files.append(fp)
+    return files, len(lines)
+
+
+# ----------------------------------------------------------------------------------------------- the check
+
+def l2_owner_known(kfs, v):
+    for owner in L2_OWNERS:
+        if v["pred"] in l2eng.PREDS[owner] and vlib.match_kf(kfs, owner, v):
+            return owner
+    return None
+
+
+def run(ctx):
+    q = ctx.quick
+    t0 = time.time()
+    # builds and design check side by side
+    with cf.ThreadPoolExecutor(max_workers=3) as ex:
+        f_plain = ex.submit(vlib.build_harness, False, "verif", "concdrv")
+        f_race = ex.submit(vlib.build_harness, True, "verif", "concdrv")
+        f_mc = ex.submit(design_check, ctx)
+        binp, binr = f_plain.result(), f_race.result()
+        mc, mcsum = f_mc.result()
+    t_build = time.time() - t0
+
+    if ctx.replay:
+        rp = json.load(open(ctx.replay))
+        sessions = rp["replay"]["sessions"]
+        nrv = 60
+    else:
+        ns, nsr, nrounds, nrv = (52, 14, 5, 240) if q else (700, 120, 5, 1200)
+        sessions = gen_sessions(ctx, binp, ns, nrounds)
+        sessions_r = gen_sessions(ctx, binp, nsr, nrounds, salt=7)
+    if ctx.replay:
+        sessions_r = sessions
+
+    # the real code: without and with the race detector, plus the rendezvous, all at once
+    t1 = time.time()
+    with cf.ThreadPoolExecutor(max_workers=4) as ex:
+        f1 = ex.submit(run_sessions, ctx, binp, sessions, ctx.path("plain", "x")[:-2], False, 10 if q else 14, None, 600 if q else 3000)
+        f2 = ex.submit(run_sessions, ctx, binr, sessions_r, ctx.path("race", "x")[:-2], True, 6 if q else 10, None, 600 if q else 3000)
+        f3 = ex.submit(run_rv, ctx, binp, ctx.path("rv", "x")[:-2], False, nrv)
+        f4 = ex.submit(run_rv, ctx, binr, ctx.path("rv", "x")[:-2], True, nrv)
+        rounds_p, l2s, crashes_p, races_p, hang_p = f1.result()
+        rounds_r, _, crashes_r, races_r, hang_r = f2.result()
+        rv_p, rvraces_p = f3.result()
+        rv_r, rvraces_r = f4.result()
+    t_run = time.time() - t1
+
+    # trace validation ---------------------------------------------------------------------------
+    t2 = time.time()
+    extra = crashes_p + crashes_r + races_p + races_r + rvraces_p + rvraces_r
+    files, nlines = split_lines(rounds_p + rounds_r + [rv_p, rv_r, extra], 8 if q else 32, ctx.out, "ser-chunk")
+    l2files, l2lines = split_l2(l2s, 12 if q else 32, ctx.out)
+    with cf.ThreadPoolExecutor(max_workers=2) as ex:
+        fa = ex.submit(validate_chunks, "Trace_Serialize", "Trace_Serialize.cfg", files, ctx.out, 900 if q else 3000)
+        fb = ex.submit(validate_chunks, "Trace_L2", "Trace_L2.cfg", l2files, ctx.out, 900 if q else 3000)
+        res_a, res_b = fa.result(), fb.result()
+    viols, consumed = [], 0
+    for fp, r in list(zip(files, res_a)) + list(zip(l2files, res_b)):
+        if r["consumed"] is None or r["consumed"] != r["total"]:
+            raise vlib.Inconclusive("trace validation did not consume %s (%s of %s): %s\n%s" % (
+                fp, r["consumed"], r["total"], r["res"]["error"], r["res"]["out"][-3000:]))
+        consumed += r["consumed"]
+        for v in r["viols"]:
+            v["chunk"] = os.path.basename(fp)
+            viols.append(v)
+    t_tv = time.time() - t2
+
+    recs_p = [e for p in rounds_p for e in read_lines(p)]
+    recs_r = [e for p in rounds_r for e in read_lines(p)]
+    rv_recs = read_lines(rv_p) + read_lines(rv_r)
+
+    # which rounds are fully equivalent / tainted (TLC's Info_Tainted), to place the L2 violations
+    tainted = {}
+    for v in viols:
+        if v["pred"] == "Info_Tainted":
+            tainted[v["s"]] = min(tainted.get(v["s"], 1 << 30), v["r"])
+    bounds, full_eq = {}, set()
+    for e in recs_p:
+        if e["ev"] == "round" and "order" in e:
+            b = bounds.setdefault(e["s"], [])
+            b.append((b[-1][0] if b else 0) + len(e["order"]))
+            b[-1] = (b[-1], e["r"])
+            eqv = e.get("equiv") or {}
+            if eqv.get("checked") and eqv.get("level") == "full" and eqv.get("same_full"):
+                full_eq.add((e["s"], e["r"]))
+    for s in bounds:
+        bounds[s] = [(x if isinstance(x, tuple) else (x, -1)) for x in bounds[s]]
+
+    def round_of(s, k):
+        for end, r in bounds.get(s, []):
+            if k < end:
+                return r
+        return None
+
+    real_div = set()
+    for e in recs_p:
+        eqv = e.get("equiv") or {} if e["ev"] == "round" else {}
+        if eqv.get("checked") and not eqv.get("same_det") and eqv.get("ctl_agree") is True and not eqv.get("ctl_explains"):
+            real_div.add((e["s"], e["r"]))
+    kfs = vlib.load_known_findings()
+    BASE = 1000000       # history index offset of the sequential baselines (concdrv)
+    # pass 1: the classes of invariant violations that SEQUENTIAL processing shows in this run (a fully equivalent round, or
+    # the sequential baseline of a round that is compared on the coarse projection only)
+    seq_classes = set()
+    for v in viols:
+        if v["pred"] in L2_PREDS:
+            if v["h"] >= BASE or (v["h"], round_of(v["h"], v.get("k", -1))) in full_eq:
+                seq_classes.add((v["pred"], v["sig"]))
+    mine, info, l2_inherited, l2_conseq, l2_known, l2_undet = [], {}, 0, 0, {}, 0
+    for v in viols:
+        if v["pred"] in PREDS:
+            mine.append(v)
+        elif v["pred"].startswith("Info_"):
+            info[v["pred"]] = info.get(v["pred"], 0) + 1
+        elif v["pred"] in L2_PREDS:
+            if v["h"] >= BASE:
+                continue
+            s, r = v["h"], round_of(v["h"], v.get("k", -1))
+            if r is None or tainted.get(s, 1 << 30) <= r:
+                l2_conseq += 1              # after a request worked outside the lock during a critical section: consequence
+            elif (s, r) in full_eq:
+                l2_inherited += 1           # the sequential replay reaches the very same state: not a matter of concurrency
+            elif l2_owner_known(kfs, v):
+                owner = l2_owner_known(kfs, v)
+                l2_known[owner] = l2_known.get(owner, 0) + 1
+            elif (s, r) not in real_div and (v["pred"], v["sig"]) in seq_classes:
+                l2_undet += 1               # no exact sequential counterpart of this round, but sequential runs break it the same way
+            else:
+                mine.append(dict(v, s=s, r=r, sig="after-concurrent-round:" + v["sig"]))
+
+    # vacuity guard -------------------------------------------------------------------------------
+    sp, sr = round_stats(recs_p), round_stats(recs_r)
+    problems = []
+    if not ctx.replay:
+        need_rounds = 200 if q else 3000
+        if sp["rounds"] + sr["rounds"] < need_rounds:
+            problems.append("only %d rounds ran (need %d)" % (sp["rounds"] + sr["rounds"], need_rounds))
+        for k in KINDS:
+            if sp["kinds_concurrent"].get(k, 0) == 0:
+                problems.append("handler kind %s never ran concurrently with others" % k)
+            if sr["kinds_concurrent"].get(k, 0) == 0:
+                problems.append("handler kind %s never ran concurrently with others in the race-detector build" % k)
+        if sp["waited_for_lock"] == 0:
+            problems.append("no lock contention observed (no request started while another one held the lock)")
+        if sp["equiv_checked"] < (100 if q else 1500) or sp["equiv_full"] == 0:
+            problems.append("sequential equivalence compared on %d rounds only" % sp["equiv_checked"])
+        if sr["rounds"] == 0 or not all(e.get("race") for e in recs_r if e["ev"] == "round"):
+            problems.append("the race-detector build did not run")
+        if not all(str(g) in sp["gmp"] for g in (1, 2, 16)):
+            problems.append("GOMAXPROCS values exercised: %s" % sp["gmp"])
+        nrvp = sum(1 for e in rv_recs if not e["race"])
+        nrvr = sum(1 for e in rv_recs if e["race"])
+        if nrvp < 200 or nrvr < 200:
+            problems.append("rendezvous rounds: %d / %d (need 200 each)" % (nrvp, nrvr))
+        modes = {(e["mode"], e["gmp"] == 1) for e in rv_recs}
+        for m in ("before", "later", "closed-empty", "nil-channel"):
+            if (m, True) not in modes or (m, False) not in modes:
+                problems.append("rendezvous mode %s not exercised with GOMAXPROCS=1 and >1" % m)
+        if sp["boot_errors"] + sr["boot_errors"] > (sp["sessions"] + sr["sessions"]) // 4:
+            problems.append("%d worlds did not boot" % (sp["boot_errors"] + sr["boot_errors"]))
+    if problems and not (hang_p or hang_r):
+        raise vlib.Inconclusive("drivers did not exercise what they should: " + "; ".join(problems))
+
+    # model vs. code: which kinds work outside the lock (drift is reported, it is not a verdict)
+    model_nolock = set(mcsum["named_deviations"]["NoLockKinds"])
+    model_pre = set(mcsum["named_deviations"]["PreAccessKinds"])
+    seen_nolock = set(sp["observed_nolock_kinds"]) | set(sr["observed_nolock_kinds"])
+    seen_pre = set(sp["observed_preaccess_kinds"]) | set(sr["observed_preaccess_kinds"])
+    drift = {"model_says_unlocked_but_code_locks": sorted((model_nolock | model_pre) - (seen_nolock | seen_pre)),
+             "code_unlocked_but_model_says_locked": sorted((seen_nolock | seen_pre) - (model_nolock | model_pre))}
+
+    payload = None
+    if mine:
+        # the sessions of the violating rounds (a replay runs them in both builds; the schedule is the Go scheduler's again)
+        pick = []
+        for v in mine:
+            s_ = v.get("s", -1)
+            pool = sessions_r if v.get("race") else sessions
+            if isinstance(s_, int) and 0 <= s_ < len(pool) and pool[s_] not in pick:
+                pick.append(pool[s_])
+        payload = {"sessions": (pick or sessions[:2])[:4]}
+
+    sample = []
+    for e in recs_p:
+        if e["ev"] == "round":
+            r0 = dict(e)
+            r0["reqs"] = r0["reqs"][:3]
+            r0.pop("order", None)
+            sample.append(r0)
+            break
+    races_all = races_p + races_r + rvraces_p + rvraces_r
+    race_pairs = {}
+    for r in races_all:
+        k = " / ".join(sorted("%s%s" % (s["kind"], "" if s["locked"] else "(outside lock)") for s in r["sides"]))
+        race_pairs[k] = race_pairs.get(k, 0) + 1
+    cov = {"states": mc["distinct"], "transitions": mc["generated"], "design_depth": mc["depth"],
+           "design_config": "Serialize.tla: 3 concurrent requests x 10 handler kinds with the lock programs of today's handlers (safety, deadlock); "
+                            "5 kinds (one per program) for termination under WF; rendezvous with 2 readers x 3 delivery outcomes; plus the "
+                            "expected-violation runs listed in design_runs",
+           "design_runs": mcsum,
+           "traces_validated_against_impl": sp["rounds"] + sr["rounds"] + len(rv_recs), "trace_events": consumed,
+           "evaluations": sp["requests"] + sr["requests"] + sum(len(e["reads"]) for e in rv_recs),
+           "distinct_nontrivial": sp["distinct_lock_orders"] + sr["distinct_lock_orders"],
+           "rule": "one evaluation = one request served by the real resource manager while other goroutines issued requests (events checked by "
+                   "TLC against Inv_AtMostOne, Inv_Mutex, Act_Terminates, Act_NoPanic; per round Act_SequentialEquivalent against the sequential "
+                   "replay in lock order) or one GetPodResources read of the rendezvous; distinct = distinct sequences of handler kinds in "
+                   "lock order over the rounds",
+           "plain_build": sp, "race_build": sr, "rendezvous_rounds": len(rv_recs),
+           "race_reports_distinct": len(races_all), "race_report_pairs": race_pairs, "runtime_crashes": len(crashes_p) + len(crashes_r),
+           "l2_lines_validated": l2lines, "l2_violations_inherited_from_sequential": l2_inherited,
+           "l2_violations_after_unsynchronized_round": l2_conseq, "l2_violations_known_sequential_findings": l2_known,
+           "l2_violations_of_a_class_seen_sequentially": l2_undet,
+           "info": info, "model_code_drift": drift,
+           "predicates": sorted(PREDS) + ["C01-C05 predicates of Trace_L2 on the serialized history"],
+           "timings_s": {"build+design": round(t_build, 1), "run": round(t_run, 1), "trace_validation": round(t_tv, 1)},
+           "samples": sample or [{"note": "no round"}], "exhaustive": False}
+    return vlib.verdict(ctx, mine, "model_checking", cov,
+                        ["TLC and the Json community module",
+                         "the Go scheduler chooses the interleavings (GOMAXPROCS 1/2/16, Gosched jitter); TLC does not control them",
+                         "cross-request order is taken only from the sequence numbers the shadowing Lock()/Unlock() write under the lock",
+                         "accesses = calls of cache.Cache / policy.Policy methods made by the handlers through recording decorators "
+                         "(pkg/resmgr/verif_conc.go); direct field accesses are seen by the race detector only",
+                         "logging inside the handlers (klog mutex) orders goroutines and hides some races from the race detector",
+                         "a race report side counts as made under the lock when its stack passes through the shadowing Unlock() (state "
+                         "projection by the harness) or its handler frame is past the handler's m.Lock() line in the current source",
+                         "Synchronize re-allocates in map order: rounds containing it are compared on the coarse projection "
+                         "(pods, containers, lifecycle states, requests) and end the session"], payload)
+
+
+def read_lines(p):
+    out = []
+    for l in open(p):
+        try:
+            out.append(json.loads(l))
+        except ValueError:
+            pass
+    return out
+
+
+def split_l2(paths, nchunks, outdir):
+    """Concatenate the L2 traces and split at reset lines."""
+    hs, cur = [], None
+    for p in paths:
+        for l in open(p):
+            if not l.strip():
+                continue
+            try:
+                json.loads(l)
+            except ValueError:
+                continue
+            if l.startswith('{"ev":"reset"'):
+                cur = []
+                hs.append(cur)
+            if cur is not None:
+                cur.append(l if l.endswith("\n") else l + "\n")
+    per = max(1, (len(hs) + nchunks - 1) // nchunks)
+    files, n = [], 0
+    for i in range(0, len(hs), per):
+        fp = os.path.join(outdir, "l2-chunk%03d.ndjson" % (i // per))
+        with open(fp, "w") as f:
+            for h in hs[i:i + per]:
+                f.writelines(h)
+                n += len(h)
+        files.append(fp)
+    return files, n
